@@ -10,8 +10,16 @@
        thread right after an unlock);
      - the unprotected read of `thread->alive` at the top of the worker loop is a
        separate internal step `LTau` (it races with mps_thread_free).
-   Thread 0 is the client (the only thread calling the pool API; tasks do not call
-   the API).  Worker w >= 1 is element w-1 of `workers` (creation order = shim tid).
+   Thread 0 is the client (the only thread calling new / wait / set_concurrency_limit /
+   free).  Worker w >= 1 is element w-1 of `workers` (creation order = shim tid).
+   NESTED ASSIGN: a task body (EStart t; yield; ...; EEnd t) may, after its yield, call
+   mps_thread_pool_assign on the same pool any number of times, on a worker as well as
+   inline in the client: the call takes the queue path (lock QC; push; signal; unlock) or,
+   when pool->n = 1 and not strict_async, runs the new task inline on the calling thread;
+   the suspended callers are the stack `st` carried by the program counter (unbounded nesting).
+   REPAIR: `repaired s = true` models threading.c with fixes/C06_limit_while_busy.patch applied
+   (the worker leaving through the bottom of mps_thread_mainloop first locks
+   work_completed_mutex, gives its busy slot back, signals work_completed_cond, unlocks).
    Mutexes: WC = work_completed_mutex, QC = queue_changed_mutex; each has exactly one
    condition variable (work_completed_cond, queue_changed), named by its mutex. *)
 Require Import List ZArith Bool Arith.
@@ -52,15 +60,22 @@ Inductive wpc :=
 | WLockQC                      (* holds WC; lock (queue_changed_mutex) *)
 | WRunUnlockQC (t : task)      (* popped t, holds both; unlock QC *)
 | WRunUnlockWC (t : task)      (* holds WC; unlock WC *)
-| WRunStart (t : task)         (* item->work (item->args): task body begins *)
-| WRunYield (t : task)         (* inside the task body *)
-| WRunEnd (t : task)           (* task body about to return *)
+| WRunStart (t : task) (st : list task)   (* item->work (item->args), or work (args) inline: body of t begins; st = suspended callers *)
+| WRunYield (t : task) (st : list task)   (* inside the task body *)
+| WRunEnd (t : task) (st : list task)     (* body after its yield: may call assign, or return *)
+| WAsgLock (t t' : task) (st : list task) (* body of t called assign (t'), queue path: lock QC *)
+| WAsgSignal (t : task) (st : list task)  (* pushed; signal queue_changed *)
+| WAsgUnlock (t : task) (st : list task)  (* unlock QC *)
+| WAsgRet (t : task) (st : list task)     (* assign returns into the body of t *)
 | WIdleSignal                  (* queue empty, holds both; signal work_completed_cond *)
 | WIdleUnlockWC                (* unlock WC *)
 | WCondWait                    (* holds QC, alive; cond_wait (queue_changed) *)
 | WWaiting                     (* inside cond_wait *)
 | WWokenUnlockQC               (* returned from cond_wait holding QC; unlock QC *)
 | WExitUnlockQC                (* !alive in the idle branch: unlock QC then pthread_exit *)
+| WExitLockWC                  (* repaired only: bottom exit, lock WC *)
+| WExitSignal                  (* repaired only: busy slot given back; signal work_completed_cond *)
+| WExitUnlockWC                (* repaired only: unlock WC *)
 | WExit                        (* pthread_exit pending (either exit) *)
 | WExited.
 
@@ -75,8 +90,10 @@ Inductive cpc :=
 | CWaitBlocked (a : cafter)             (* inside cond_wait *)
 | CWaitUnlock (a : cafter)              (* condition seen true; unlock WC *)
 | CRet (e : uev)                        (* API call returns *)
-| CInlStart (t : task) | CInlYield (t : task) | CInlEnd (t : task)   (* inline execution, n = 1 *)
-| CAsgLock (t : task) | CAsgSignal | CAsgUnlock
+| CInlStart (t : task) (st : list task) | CInlYield (t : task) (st : list task)
+| CInlEnd (t : task) (st : list task)     (* inline execution, n = 1; st = suspended callers; CInlEnd: may assign or return *)
+| CAsgLock (t : task) (st : list task) | CAsgSignal (st : list task) | CAsgUnlock (st : list task)
+| CAsgRet (st : list task)                (* assign returns: to the script (st = []) or into the body of hd st *)
 | CKillLock (ws : list tid) (a : cafter)   (* mps_thread_free (head ws): lock QC *)
 | CKillBcast (ws : list tid) (a : cafter)
 | CKillUnlock (ws : list tid) (a : cafter)
@@ -94,25 +111,28 @@ Record state := mkS {
   workers : list worker;
   plist : list tid;                            (* pool->first linked list *)
   pn : nat; climit : nat; strict : bool;
-  pc0 : cpc; cont0 : bool }.
+  pc0 : cpc; cont0 : bool;
+  repaired : bool }.
 
 Definition init : state :=
-  mkS [] 0 None None [] [] [] [] [] [] 0 0 false CNotCreated false.
+  mkS [] 0 None None [] [] [] [] [] [] 0 0 false CNotCreated false false.
+Definition init_r : state :=
+  mkS [] 0 None None [] [] [] [] [] [] 0 0 false CNotCreated false true.
 
 (* ---- setters ---- *)
-Definition set_queue s x := mkS x (busy_counter s) (wc_owner s) (qc_owner s) (wc_wait s) (qc_wait s) (assigned s) (executed s) (workers s) (plist s) (pn s) (climit s) (strict s) (pc0 s) (cont0 s).
-Definition set_busy_counter s x := mkS (queue s) x (wc_owner s) (qc_owner s) (wc_wait s) (qc_wait s) (assigned s) (executed s) (workers s) (plist s) (pn s) (climit s) (strict s) (pc0 s) (cont0 s).
-Definition set_wc_owner s x := mkS (queue s) (busy_counter s) x (qc_owner s) (wc_wait s) (qc_wait s) (assigned s) (executed s) (workers s) (plist s) (pn s) (climit s) (strict s) (pc0 s) (cont0 s).
-Definition set_qc_owner s x := mkS (queue s) (busy_counter s) (wc_owner s) x (wc_wait s) (qc_wait s) (assigned s) (executed s) (workers s) (plist s) (pn s) (climit s) (strict s) (pc0 s) (cont0 s).
-Definition set_wc_wait s x := mkS (queue s) (busy_counter s) (wc_owner s) (qc_owner s) x (qc_wait s) (assigned s) (executed s) (workers s) (plist s) (pn s) (climit s) (strict s) (pc0 s) (cont0 s).
-Definition set_qc_wait s x := mkS (queue s) (busy_counter s) (wc_owner s) (qc_owner s) (wc_wait s) x (assigned s) (executed s) (workers s) (plist s) (pn s) (climit s) (strict s) (pc0 s) (cont0 s).
-Definition set_assigned s x := mkS (queue s) (busy_counter s) (wc_owner s) (qc_owner s) (wc_wait s) (qc_wait s) x (executed s) (workers s) (plist s) (pn s) (climit s) (strict s) (pc0 s) (cont0 s).
-Definition set_executed s x := mkS (queue s) (busy_counter s) (wc_owner s) (qc_owner s) (wc_wait s) (qc_wait s) (assigned s) x (workers s) (plist s) (pn s) (climit s) (strict s) (pc0 s) (cont0 s).
-Definition set_workers s x := mkS (queue s) (busy_counter s) (wc_owner s) (qc_owner s) (wc_wait s) (qc_wait s) (assigned s) (executed s) x (plist s) (pn s) (climit s) (strict s) (pc0 s) (cont0 s).
-Definition set_pool s pl n cl := mkS (queue s) (busy_counter s) (wc_owner s) (qc_owner s) (wc_wait s) (qc_wait s) (assigned s) (executed s) (workers s) pl n cl (strict s) (pc0 s) (cont0 s).
-Definition set_strict s x := mkS (queue s) (busy_counter s) (wc_owner s) (qc_owner s) (wc_wait s) (qc_wait s) (assigned s) (executed s) (workers s) (plist s) (pn s) (climit s) x (pc0 s) (cont0 s).
-Definition set_pc0 s x := mkS (queue s) (busy_counter s) (wc_owner s) (qc_owner s) (wc_wait s) (qc_wait s) (assigned s) (executed s) (workers s) (plist s) (pn s) (climit s) (strict s) x (cont0 s).
-Definition set_cont0 s x := mkS (queue s) (busy_counter s) (wc_owner s) (qc_owner s) (wc_wait s) (qc_wait s) (assigned s) (executed s) (workers s) (plist s) (pn s) (climit s) (strict s) (pc0 s) x.
+Definition set_queue s x := mkS x (busy_counter s) (wc_owner s) (qc_owner s) (wc_wait s) (qc_wait s) (assigned s) (executed s) (workers s) (plist s) (pn s) (climit s) (strict s) (pc0 s) (cont0 s) (repaired s).
+Definition set_busy_counter s x := mkS (queue s) x (wc_owner s) (qc_owner s) (wc_wait s) (qc_wait s) (assigned s) (executed s) (workers s) (plist s) (pn s) (climit s) (strict s) (pc0 s) (cont0 s) (repaired s).
+Definition set_wc_owner s x := mkS (queue s) (busy_counter s) x (qc_owner s) (wc_wait s) (qc_wait s) (assigned s) (executed s) (workers s) (plist s) (pn s) (climit s) (strict s) (pc0 s) (cont0 s) (repaired s).
+Definition set_qc_owner s x := mkS (queue s) (busy_counter s) (wc_owner s) x (wc_wait s) (qc_wait s) (assigned s) (executed s) (workers s) (plist s) (pn s) (climit s) (strict s) (pc0 s) (cont0 s) (repaired s).
+Definition set_wc_wait s x := mkS (queue s) (busy_counter s) (wc_owner s) (qc_owner s) x (qc_wait s) (assigned s) (executed s) (workers s) (plist s) (pn s) (climit s) (strict s) (pc0 s) (cont0 s) (repaired s).
+Definition set_qc_wait s x := mkS (queue s) (busy_counter s) (wc_owner s) (qc_owner s) (wc_wait s) x (assigned s) (executed s) (workers s) (plist s) (pn s) (climit s) (strict s) (pc0 s) (cont0 s) (repaired s).
+Definition set_assigned s x := mkS (queue s) (busy_counter s) (wc_owner s) (qc_owner s) (wc_wait s) (qc_wait s) x (executed s) (workers s) (plist s) (pn s) (climit s) (strict s) (pc0 s) (cont0 s) (repaired s).
+Definition set_executed s x := mkS (queue s) (busy_counter s) (wc_owner s) (qc_owner s) (wc_wait s) (qc_wait s) (assigned s) x (workers s) (plist s) (pn s) (climit s) (strict s) (pc0 s) (cont0 s) (repaired s).
+Definition set_workers s x := mkS (queue s) (busy_counter s) (wc_owner s) (qc_owner s) (wc_wait s) (qc_wait s) (assigned s) (executed s) x (plist s) (pn s) (climit s) (strict s) (pc0 s) (cont0 s) (repaired s).
+Definition set_pool s pl n cl := mkS (queue s) (busy_counter s) (wc_owner s) (qc_owner s) (wc_wait s) (qc_wait s) (assigned s) (executed s) (workers s) pl n cl (strict s) (pc0 s) (cont0 s) (repaired s).
+Definition set_strict s x := mkS (queue s) (busy_counter s) (wc_owner s) (qc_owner s) (wc_wait s) (qc_wait s) (assigned s) (executed s) (workers s) (plist s) (pn s) (climit s) x (pc0 s) (cont0 s) (repaired s).
+Definition set_pc0 s x := mkS (queue s) (busy_counter s) (wc_owner s) (qc_owner s) (wc_wait s) (qc_wait s) (assigned s) (executed s) (workers s) (plist s) (pn s) (climit s) (strict s) x (cont0 s) (repaired s).
+Definition set_cont0 s x := mkS (queue s) (busy_counter s) (wc_owner s) (qc_owner s) (wc_wait s) (qc_wait s) (assigned s) (executed s) (workers s) (plist s) (pn s) (climit s) (strict s) (pc0 s) x (repaired s).
 
 Definition set_wpc (x : worker) p := mkW (w_alive x) (w_busy x) p (w_cont x) (w_joined x).
 Definition set_wpc_cont (x : worker) p := mkW (w_alive x) (w_busy x) p true (w_joined x).
@@ -183,11 +203,15 @@ Definition after_creates (k : nat) (a : cafter) : cpc :=
 Definition kill_event (s : state) (e : uev) : bool :=
   match e with EFree => true | ESetLimit m => Nat.ltb m (climit s) | _ => false end.
 
+(* the test at the top of mps_thread_pool_assign *)
+Definition inline_mode (s : state) : bool := Nat.eqb (pn s) 1 && negb (strict s).
+
 (* ---- the worker ---- *)
 Definition wstep (s : state) (w : tid) (x : worker) (l : label) : option state :=
   match l, w_pc x with
   | LBegin _, WStart => Some (put_w s w (set_wpc x WTop))
-  | LTau _, WTop => Some (put_w s w (set_wpc x (if w_alive x then WLockWC else WExit)))
+  | LTau _, WTop =>
+      Some (put_w s w (set_wpc x (if w_alive x then WLockWC else if repaired s then WExitLockWC else WExit)))
   | LLock _ WC, WLockWC => do s1 <- lock s w WC; Some (put_w s1 w (set_wpc x WLockQC))
   | LLock _ QC, WLockQC =>
       do s1 <- lock s w QC;
@@ -200,11 +224,26 @@ Definition wstep (s : state) (w : tid) (x : worker) (l : label) : option state :
           Some (put_w s2 w (set_wbusy_pc x false WIdleSignal))
       end
   | LUnlock _ QC, WRunUnlockQC t => do s1 <- unlock s w QC; Some (put_w s1 w (set_wpc_cont x (WRunUnlockWC t)))
-  | LUnlock _ WC, WRunUnlockWC t => do s1 <- unlock s w WC; Some (put_w s1 w (set_wpc_cont x (WRunStart t)))
-  | LEv _ (EStart t'), WRunStart t => if Nat.eqb t t' then Some (put_w s w (set_wpc x (WRunYield t))) else None
-  | LYield _, WRunYield t => Some (put_w s w (set_wpc x (WRunEnd t)))
-  | LEv _ (EEnd t'), WRunEnd t =>
-      if Nat.eqb t t' then Some (put_w (set_executed s (t :: executed s)) w (set_wpc x WTop)) else None
+  | LUnlock _ WC, WRunUnlockWC t => do s1 <- unlock s w WC; Some (put_w s1 w (set_wpc_cont x (WRunStart t [])))
+  (* the task body: start; yield; any number of assign calls; end *)
+  | LEv _ (EStart t'), WRunStart t st => if Nat.eqb t t' then Some (put_w s w (set_wpc x (WRunYield t st))) else None
+  | LYield _, WRunYield t st => Some (put_w s w (set_wpc x (WRunEnd t st)))
+  | LEv _ (EEnd t'), WRunEnd t st =>
+      if Nat.eqb t t' then
+        Some (put_w (set_executed s (t :: executed s)) w
+                    (set_wpc x (match st with [] => WTop | u :: r => WAsgRet u r end)))
+      else None
+  (* mps_thread_pool_assign called by the body of t *)
+  | LEv _ (EAssign t'), WRunEnd t st =>
+      if mem t' (assigned s) then None else
+      Some (put_w (set_assigned s (t' :: assigned s)) w
+                  (set_wpc x (if inline_mode s then WRunStart t' (t :: st) else WAsgLock t t' st)))
+  | LLock _ QC, WAsgLock t t' st =>
+      do s1 <- lock s w QC; Some (put_w (set_queue s1 (queue s1 ++ [t'])) w (set_wpc x (WAsgSignal t st)))
+  | LSignal _ QC u, WAsgSignal t st => do s1 <- signal s QC u; Some (put_w s1 w (set_wpc x (WAsgUnlock t st)))
+  | LUnlock _ QC, WAsgUnlock t st => do s1 <- unlock s w QC; Some (put_w s1 w (set_wpc_cont x (WAsgRet t st)))
+  | LEv _ EAssignRet, WAsgRet t st => Some (put_w s w (set_wpc x (WRunEnd t st)))
+  (* queue empty *)
   | LSignal _ WC u, WIdleSignal => do s1 <- signal s WC u; Some (put_w s1 w (set_wpc x WIdleUnlockWC))
   | LUnlock _ WC, WIdleUnlockWC =>
       do s1 <- unlock s w WC;
@@ -213,6 +252,13 @@ Definition wstep (s : state) (w : tid) (x : worker) (l : label) : option state :
   | LCWake _ QC sp, WWaiting => do s1 <- cwake s w QC sp; Some (put_w s1 w (set_wpc x WWokenUnlockQC))
   | LUnlock _ QC, WWokenUnlockQC => do s1 <- unlock s w QC; Some (put_w s1 w (set_wpc_cont x WTop))
   | LUnlock _ QC, WExitUnlockQC => do s1 <- unlock s w QC; Some (put_w s1 w (set_wpc_cont x WExit))
+  (* repaired only: the bottom exit gives the busy slot back under work_completed_mutex *)
+  | LLock _ WC, WExitLockWC =>
+      do s1 <- lock s w WC;
+      let s2 := if w_busy x then set_busy_counter s1 (busy_counter s1 - 1) else s1 in
+      Some (put_w s2 w (set_wbusy_pc x false WExitSignal))
+  | LSignal _ WC u, WExitSignal => do s1 <- signal s WC u; Some (put_w s1 w (set_wpc x WExitUnlockWC))
+  | LUnlock _ WC, WExitUnlockWC => do s1 <- unlock s w WC; Some (put_w s1 w (set_wpc_cont x WExit))
   | LExit _, WExit => Some (put_w s w (set_wpc x WExited))
   | _, _ => None
   end.
@@ -237,22 +283,27 @@ Definition cstep (s : state) (l : label) : option state :=
   (* return events *)
   | LEv _ e, CRet e' =>
       match e, e' with
-      | ENewRet, ENewRet | EAssignRet, EAssignRet | EWaitRet, EWaitRet | ESetLimitRet, ESetLimitRet => Some (set_pc0 s CIdle)
+      | ENewRet, ENewRet | EWaitRet, EWaitRet | ESetLimitRet, ESetLimitRet => Some (set_pc0 s CIdle)
       | EFreeRet, EFreeRet => Some (set_pc0 s CDone)
       | _, _ => None
       end
-  (* mps_thread_pool_assign *)
+  (* mps_thread_pool_assign, called by the script or (nested) by a task body running inline *)
   | LEv _ (EAssign t), CIdle =>
       if mem t (assigned s) then None else
       let s1 := set_assigned s (t :: assigned s) in
-      Some (set_pc0 s1 (if Nat.eqb (pn s) 1 && negb (strict s) then CInlStart t else CAsgLock t))
-  | LEv _ (EStart t'), CInlStart t => if Nat.eqb t t' then Some (set_pc0 s (CInlYield t)) else None
-  | LYield _, CInlYield t => Some (set_pc0 s (CInlEnd t))
-  | LEv _ (EEnd t'), CInlEnd t =>
-      if Nat.eqb t t' then Some (set_pc0 (set_executed s (t :: executed s)) (CRet EAssignRet)) else None
-  | LLock _ QC, CAsgLock t => do s1 <- lock s 0%nat QC; Some (set_pc0 (set_queue s1 (queue s1 ++ [t])) CAsgSignal)
-  | LSignal _ QC u, CAsgSignal => do s1 <- signal s QC u; Some (set_pc0 s1 CAsgUnlock)
-  | LUnlock _ QC, CAsgUnlock => do s1 <- unlock s 0%nat QC; Some (set_cont0 (set_pc0 s1 (CRet EAssignRet)) true)
+      Some (set_pc0 s1 (if inline_mode s then CInlStart t [] else CAsgLock t []))
+  | LEv _ (EAssign t'), CInlEnd t st =>
+      if mem t' (assigned s) then None else
+      let s1 := set_assigned s (t' :: assigned s) in
+      Some (set_pc0 s1 (if inline_mode s then CInlStart t' (t :: st) else CAsgLock t' (t :: st)))
+  | LEv _ (EStart t'), CInlStart t st => if Nat.eqb t t' then Some (set_pc0 s (CInlYield t st)) else None
+  | LYield _, CInlYield t st => Some (set_pc0 s (CInlEnd t st))
+  | LEv _ (EEnd t'), CInlEnd t st =>
+      if Nat.eqb t t' then Some (set_pc0 (set_executed s (t :: executed s)) (CAsgRet st)) else None
+  | LLock _ QC, CAsgLock t st => do s1 <- lock s 0%nat QC; Some (set_pc0 (set_queue s1 (queue s1 ++ [t])) (CAsgSignal st))
+  | LSignal _ QC u, CAsgSignal st => do s1 <- signal s QC u; Some (set_pc0 s1 (CAsgUnlock st))
+  | LUnlock _ QC, CAsgUnlock st => do s1 <- unlock s 0%nat QC; Some (set_cont0 (set_pc0 s1 (CAsgRet st)) true)
+  | LEv _ EAssignRet, CAsgRet st => Some (set_pc0 s (match st with [] => CIdle | t :: r => CInlEnd t r end))
   | LEv _ (EStrict b), CIdle => Some (set_strict s b)
   (* mps_thread_pool_set_concurrency_limit (m > 0) *)
   | LEv _ (ESetLimit m), CIdle =>
@@ -317,14 +368,21 @@ Fixpoint run_d (s : state) (tr : list label) : option state :=
   match tr with [] => Some s | l :: r => do s1 <- step_d s l; run_d s1 r end.
 
 (* ---- observables used in the statements ---- *)
+(* tasks in the hands of a worker: popped / running / suspended callers / handed over, not queued yet *)
 Definition wtask (p : wpc) : list task :=
   match p with
-  | WRunUnlockQC t | WRunUnlockWC t | WRunStart t | WRunYield t | WRunEnd t => [t]
+  | WRunUnlockQC t | WRunUnlockWC t => [t]
+  | WRunStart t st | WRunYield t st | WRunEnd t st | WAsgSignal t st | WAsgUnlock t st | WAsgRet t st => t :: st
+  | WAsgLock t t' st => t' :: t :: st
   | _ => []
   end.
 Definition running (s : state) : list task := flat_map (fun x => wtask (w_pc x)) (workers s).
 Definition ctask (p : cpc) : list task :=
-  match p with CInlStart t | CInlYield t | CInlEnd t | CAsgLock t => [t] | _ => [] end.
+  match p with
+  | CInlStart t st | CInlYield t st | CInlEnd t st | CAsgLock t st => t :: st
+  | CAsgSignal st | CAsgUnlock st | CAsgRet st => st
+  | _ => []
+  end.
 Definition pending (s : state) : list task := ctask (pc0 s).
 Definition nbusy (s : state) : nat := length (filter w_busy (workers s)).
 Definition is_exited (x : worker) : bool := match w_pc x with WExited => true | _ => false end.
@@ -356,4 +414,10 @@ Definition chk_barrier (s : state) : bool :=
   | CRet EWaitRet => same_multiset (assigned s) (executed s)
   | _ => true
   end.
-Definition chk_all (s : state) : bool := chk_conservation s && chk_busy s && chk_barrier s.
+(* after free: every worker exited and joined; the tasks not executed are exactly those still queued *)
+Definition chk_final (s : state) : bool :=
+  match pc0 s with
+  | CDone => forallb (fun x => is_exited x && w_joined x) (workers s) && same_multiset (assigned s) (queue s ++ executed s)
+  | _ => true
+  end.
+Definition chk_all (s : state) : bool := chk_conservation s && chk_busy s && chk_barrier s && chk_final s.
